@@ -1,4 +1,9 @@
-"""C19 — PIN -> TSV conversion: correspondence of Model/PinTsv.v with mokapot.parsers.pin_to_tsv."""
+"""C19 — PIN -> TSV conversion: correspondence of Model/PinTsv.v with mokapot.parsers.pin_to_tsv.
+
+Every case carries the two separators of the real API: "sc" = sep_column (one character) and
+"sp" = sep_protein (any string, also empty / several characters), and "call" = how they are handed
+to the real function: "kw" (keywords), "pos" (positionally) or "default" (not passed at all: only
+for "\\t" / ":"; the model side then runs the default instances used by Model/Fs.v)."""
 import io
 import itertools
 import os
@@ -9,57 +14,97 @@ from ..lib import call_impl
 
 PROP = "C19"
 RULE = ("cases: (1) exhaustive structured PINs over n_pre<=2, n_post<=1, DefaultDirection on/off, "
-        "<=2 (quick) / <=3 (thorough) rows x 1..3 proteins, final newline on/off; (2) random structured PINs "
-        "(fields with inner spaces, '|', ':'); (3) malformed stream: random texts over a token alphabet with "
-        "ragged rows, empty fields/lines, missing Proteins, \\r, edge whitespace; each text goes to "
-        "pin_to_valid_tsv and is_valid_tsv (StringIO and, for a share, real files). distinct = distinct "
-        "(entry, text); non-trivial = a row with >=2 proteins or a protein column that is not last or a malformed text")
+        "<=2 (quick) / <=3 (thorough) rows x 1..3 proteins (so the FIRST PSM has 1..3 proteins with and without a "
+        "DefaultDirection line), final newline on/off, x separator pairs (sep_column, sep_protein) in "
+        "{TAB}x{':' passed by default / by keyword, ';', '|||', '', '::'} + {','}x{':', '|||', ''}; "
+        "(2) random structured PINs (fields with inner spaces, '|', ':'; first PSM forced to >=2 proteins in 2/3 of them) "
+        "with sep_column in {TAB , ; | space} and sep_protein in {: ; ||| '' :: ' ' TAB / -}; "
+        "(3) malformed stream: random texts over a token alphabet with ragged rows, empty fields/lines, missing Proteins, "
+        "\\r, edge whitespace, for several separator pairs; each text goes to pin_to_valid_tsv and is_valid_tsv (StringIO and, "
+        "for a share, real files); (4) convert_line_pin_to_tsv on rows of structured PINs and on random lines with arbitrary "
+        "idx_protein_col / n_col (negative slice ends included); (5) parse_pin_header_columns on header-like strings. "
+        "distinct = distinct (entry, separators, call form, text); non-trivial = a row with >=2 proteins or a protein column "
+        "that is not last or non-default separators or a malformed text")
 ASSUMPTIONS = [
     "str.strip() is modelled for ASCII whitespace (9-13, 28-32) only; generated texts are ASCII",
     "text-mode universal newline translation is exercised (real-file cases) but not modelled: those cases contain no \\r",
+    "sep_column is ONE character (the model's sepc : Z); a multi-character or empty sep_column (str.split raises "
+    "ValueError on '') is outside the model; sep_protein is an arbitrary string",
 ]
 TRUSTED_EXTRA = ["io.StringIO / open() line iteration (oracle: lines end at \\n)"]
 
 DD = "DefaultDirection"
+TAB = "\t"
+SEP_PROTS = [":", ";", "|||", "", "::"]
 
 
-def render(struct):
+def _seps(c):
+    return c.get("sc", TAB), c.get("sp", ":"), c.get("call", "kw")
+
+
+def render(struct, sc=TAB):
     hdr = struct["hdr_pre"] + ["Proteins"] + struct["hdr_post"]
-    lines = ["\t".join(hdr)]
+    lines = [sc.join(hdr)]
     if struct["dd"] is not None:
         lines.append(struct["dd"])
     for r in struct["rows"]:
-        lines.append("\t".join(r["pre"] + r["prots"] + r["post"]))
+        lines.append(sc.join(r["pre"] + r["prots"] + r["post"]))
     txt = "\n".join(lines)
     if struct["final_nl"]:
         txt += "\n"
     return txt
 
 
-def expected_tsv(struct):
+def expected_tsv(struct, sc=TAB, sp=":"):
+    """the property's own description of the output: header, one line per PSM in order, the proteins of
+    EVERY PSM joined by the requested protein separator"""
     hdr = struct["hdr_pre"] + ["Proteins"] + struct["hdr_post"]
-    lines = ["\t".join(hdr)]
+    lines = [sc.join(hdr)]
     for r in struct["rows"]:
-        lines.append("\t".join(r["pre"] + [":".join(r["prots"])] + r["post"]))
+        lines.append(sc.join(r["pre"] + [sp.join(r["prots"])] + r["post"]))
     return "".join(l + "\n" for l in lines)
 
 
-def _mk(struct, via="stringio"):
-    txt = render(struct)
+def _septag(sc, sp, call):
+    return [f"sc={sc!r}", f"sp={sp!r}", f"call={call}"]
+
+
+def _mk(struct, sc=TAB, sp=":", call="kw", via="stringio"):
+    txt = render(struct, sc)
+    first = struct["rows"][0]
     tags = ["structured", f"rows={len(struct['rows'])}", f"npre={len(struct['hdr_pre'])}",
-            f"npost={len(struct['hdr_post'])}", "dd" if struct["dd"] is not None else "nodd", via]
-    return [
-        {"fn": "convert_file", "text": txt, "struct": struct, "via": via, "tags": tags},
-        {"fn": "is_valid", "text": txt, "struct": struct, "via": via, "tags": tags},
-        {"fn": "is_valid", "text": expected_tsv(struct), "via": via, "tags": ["tsv-of-structured"]},
-        {"fn": "convert_file", "text": expected_tsv(struct), "via": via, "tags": ["tsv-of-structured"]},
+            f"npost={len(struct['hdr_post'])}", "dd" if struct["dd"] is not None else "nodd", via,
+            ("first-multi-" if len(first["prots"]) >= 2 else "first-single-") + ("dd" if struct["dd"] is not None else "nodd"),
+            ] + _septag(sc, sp, call)
+    base = {"sc": sc, "sp": sp, "call": call, "via": via}
+    exp = expected_tsv(struct, sc, sp)
+    out = [
+        dict(base, fn="convert_file", text=txt, struct=struct, tags=tags),
+        dict(base, fn="is_valid", text=txt, struct=struct, tags=tags),
+        dict(base, fn="is_valid", text=exp, tags=["tsv-of-structured"] + _septag(sc, sp, call)),
+        dict(base, fn="convert_file", text=exp, tags=["tsv-of-structured"] + _septag(sc, sp, call)),
     ]
+    return out
+
+
+def _line_cases(struct, sc, sp, call):
+    """convert_line_pin_to_tsv on every row of a structured PIN, with the header's idx / n_col"""
+    idx = len(struct["hdr_pre"])
+    ncol = idx + 1 + len(struct["hdr_post"])
+    out = []
+    for r in struct["rows"]:
+        out.append({"fn": "convert_line", "sc": sc, "sp": sp, "call": call,
+                    "line": sc.join(r["pre"] + r["prots"] + r["post"]), "idx": idx, "ncol": ncol, "row": r,
+                    "tags": ["line-structured", f"nprot={len(r['prots'])}"] + _septag(sc, sp, call)})
+    return out
 
 
 def gen(ctx):
     cases = []
-    # (1) exhaustive small scope
+    # (1) exhaustive small scope x separator pairs
     maxrows = 3 if ctx.thorough else 2
+    pairs = [(TAB, ":", "default"), (TAB, ":", "kw"), (TAB, ";", "kw"), (TAB, "|||", "kw"), (TAB, "", "kw"),
+             (TAB, "::", "pos"), (",", ":", "kw"), (",", "|||", "pos"), (",", "", "kw")]
     for npre, npost, dd, fnl in itertools.product(range(3), range(2), (False, True), (False, True)):
         for nrows in range(1, maxrows + 1):
             for pc in itertools.product((1, 2, 3), repeat=nrows):
@@ -68,27 +113,40 @@ def gen(ctx):
                     rows.append({"pre": [f"a{ri}{j}" for j in range(npre)],
                                  "prots": [f"P{ri}{j}" for j in range(k)],
                                  "post": [f"z{ri}{j}" for j in range(npost)]})
-                st = {"hdr_pre": [f"h{j}" for j in range(npre)], "hdr_post": [f"t{j}" for j in range(npost)],
-                      "dd": (DD + "\t-" * (npre + npost)) if dd else None, "rows": rows, "final_nl": fnl}
-                cases.extend(_mk(st))
+                for sc, sp, call in pairs:
+                    st = {"hdr_pre": [f"h{j}" for j in range(npre)], "hdr_post": [f"t{j}" for j in range(npost)],
+                          "dd": (DD + (sc + "-") * (npre + npost)) if dd else None, "rows": rows, "final_nl": fnl}
+                    cases.extend(_mk(st, sc, sp, call))
+                    if fnl and not dd and nrows == 1:
+                        cases.extend(_line_cases(st, sc, sp, call))
     # (2) random structured
     rng = ctx.sub("structured")
-    alpha = "abXYZ019|.-_:+ "
-    def field(edge=False):
-        n = rng.randint(1, 6)
-        sx = "".join(rng.choice(alpha) for _ in range(n))
-        if edge:
-            sx = sx.strip() or "x"
-        return sx
-    nrand = 400 if ctx.thorough else 120
+    alpha0 = "abXYZ019|.-_:+ "
+    sc_pool = [TAB, TAB, TAB, ",", ",", ";", "|", " "]
+    sp_pool = [":", ":", ";", "|||", "", "::", " ", TAB, "/", "-", ", "]
+    nrand = 600 if ctx.thorough else 200
     for k in range(nrand):
+        sc = rng.choice(sc_pool)
+        sp = rng.choice(sp_pool)
+        call = "default" if (sc == TAB and sp == ":" and rng.random() < 0.5) else rng.choice(["kw", "kw", "pos"])
+        alpha = alpha0.replace(sc, "")
+
+        def field(edge=False):
+            n = rng.randint(1, 6)
+            sx = "".join(rng.choice(alpha) for _ in range(n))
+            if edge:
+                sx = sx.strip() or "x"
+            return sx
         npre, npost = rng.randint(0, 5), rng.randint(0, 4)
         rows = []
-        for _ in range(rng.randint(1, 6)):
+        nrows = rng.randint(1, 6)
+        for ri in range(nrows):
             pre = [field() for _ in range(npre)]
-            prots = [field() for _ in range(rng.choice([1, 1, 2, 3, 5]))]
+            nprot = rng.choice([1, 1, 2, 3, 5])
+            if ri == 0 and k % 3 != 0:
+                nprot = rng.choice([2, 3, 4])          # the first PSM has several proteins
+            prots = [field() for _ in range(nprot)]
             post = [field() for _ in range(npost)]
-            allf = pre + prots + post
             # first / last field of the line must survive strip()
             if pre:
                 pre[0] = field(True)
@@ -106,15 +164,20 @@ def gen(ctx):
         if hp and rng.random() < 0.3:
             hp[rng.randrange(len(hp))] = "proteins"   # different case: not the protein column
         st = {"hdr_pre": hp, "hdr_post": ht,
-              "dd": (DD + "\t-" * (npre + npost)) if rng.random() < 0.4 else None,
+              "dd": (DD + (sc + "-") * (npre + npost)) if rng.random() < 0.4 else None,
               "rows": rows, "final_nl": rng.random() < 0.6}
         via = "file" if k % 4 == 0 else "stringio"
-        cases.extend(_mk(st, via))
+        cases.extend(_mk(st, sc, sp, call, via))
+        if k % 2 == 0:
+            cases.extend(_line_cases(st, sc, sp, call))
     # (3) malformed / free-form stream
     rng = ctx.sub("malformed")
-    toks = ["a", "b", "Proteins", "\t", "\t", "\t", "\n", "\n", " ", ":", DD, "\r", "x y", "", "\x0b", "\x1c"]
     nmal = 1500 if ctx.thorough else 400
+    mal_pairs = [(TAB, ":", "default"), (TAB, ":", "kw"), (TAB, "|||", "kw"), (",", ";", "kw"), (" ", "", "pos"),
+                 (TAB, "::", "pos"), (";", ":", "kw")]
     for k in range(nmal):
+        sc, sp, call = mal_pairs[k % len(mal_pairs)] if k % 2 else mal_pairs[rng.randrange(2)]
+        toks = ["a", "b", "Proteins", sc, sc, sc, "\n", "\n", " ", ":", DD, "\r", "x y", "", "\x0b", "\x1c", "\t", ","]
         n = rng.randint(0, 14)
         txt = "".join(rng.choice(toks) for _ in range(n))
         if rng.random() < 0.5:
@@ -127,116 +190,226 @@ def gen(ctx):
             for _ in range(rng.randint(0, 4)):
                 nf = max(0, w + rng.choice([-2, -1, 0, 0, 0, 1, 2, 3]))
                 fs = [rng.choice(["a", "b", "", " ", "p q", DD, ":", "\r"]) for _ in range(nf)]
-                body.append("\t".join(fs))
-            txt = "\n".join(["\t".join(hdr)] + body) + rng.choice(["", "\n", "\n\n", " \n"])
+                body.append(sc.join(fs))
+            txt = "\n".join([sc.join(hdr)] + body) + rng.choice(["", "\n", "\n\n", " \n"])
         for fn in ("convert_file", "is_valid"):
-            cases.append({"fn": fn, "text": txt, "via": "stringio", "tags": ["malformed"]})
+            cases.append({"fn": fn, "text": txt, "sc": sc, "sp": sp, "call": call, "via": "stringio",
+                          "tags": ["malformed"] + _septag(sc, sp, call)})
+    # (4) convert_line_pin_to_tsv on random lines with arbitrary idx / n_col
+    rng = ctx.sub("lines")
+    nline = 900 if ctx.thorough else 300
+    for k in range(nline):
+        sc = rng.choice([TAB, TAB, ",", " ", ";"])
+        sp = rng.choice(SEP_PROTS + [sc, " "])
+        call = "default" if (sc == TAB and sp == ":" and rng.random() < 0.5) else rng.choice(["kw", "pos"])
+        nf = rng.randint(0, 7)
+        fs = [rng.choice(["a", "b", "", "p q", "P1", ":", "x"]) for _ in range(nf)]
+        line = sc.join(fs)
+        cases.append({"fn": "convert_line", "sc": sc, "sp": sp, "call": call, "line": line,
+                      "idx": rng.randint(0, nf + 2), "ncol": rng.randint(0, nf + 4),
+                      "tags": ["line-random"] + _septag(sc, sp, call)})
+    # (5) parse_pin_header_columns
+    rng = ctx.sub("headers")
+    nhdr = 300 if ctx.thorough else 120
+    for k in range(nhdr):
+        sc = rng.choice([TAB, TAB, ",", " ", ";"])
+        call = "default" if (sc == TAB and rng.random() < 0.5) else rng.choice(["kw", "pos"])
+        w = rng.randint(0, 5)
+        cols = [rng.choice(["a", "Proteins", "proteins", "Proteins ", "", "x y", "Label"]) for _ in range(w)]
+        header = rng.choice(["", " ", "\n"]) + sc.join(cols) + rng.choice(["", "\n", " \n", sc])
+        cases.append({"fn": "parse_header", "sc": sc, "call": call, "header": header,
+                      "tags": ["header"] + _septag(sc, None, call)})
     return cases
 
 
 def encode(c):
-    return f"c19.{c['fn']} " + lib.s(c["text"])
+    sc, sp, call = _seps(c)
+    fn = c["fn"]
+    if fn == "convert_file":
+        if call == "default":
+            return "c19.convert_file_default " + lib.s(c["text"])
+        return "c19.convert_file " + lib.z(ord(sc)) + " " + lib.s(sp) + " " + lib.s(c["text"])
+    if fn == "is_valid":
+        if call == "default":
+            return "c19.is_valid_default " + lib.s(c["text"])
+        return "c19.is_valid " + lib.z(ord(sc)) + " " + lib.s(c["text"])
+    if fn == "convert_line":
+        return ("c19.convert_line " + lib.z(ord(sc)) + " " + lib.s(sp) + " " + lib.s(c["line"]) + " "
+                + lib.z(c["idx"]) + " " + lib.z(c["ncol"]))
+    if fn == "parse_header":
+        return "c19.parse_header " + lib.z(ord(sc)) + " " + lib.s(c["header"])
+    raise ValueError(fn)
 
 
 def decode(c, t):
-    if c["fn"] == "convert_file":
+    fn = c["fn"]
+    if fn == "convert_file":
         return t.result(t.s)
-    return t.result(t.b)
+    if fn == "is_valid":
+        return t.result(t.b)
+    if fn == "convert_line":
+        return ("ok", t.s())
+    return t.result(lambda: [t.nat(), t.nat()])
 
 
-def _convert(text, via):
+def _pin_to_valid_tsv(fi, fo, sc, sp, call):
     from mokapot.parsers.pin_to_tsv import pin_to_valid_tsv
+    if call == "default":
+        assert sc == TAB and sp == ":"
+        return pin_to_valid_tsv(fi, fo)
+    if call == "pos":
+        return pin_to_valid_tsv(fi, fo, sc, sp)
+    return pin_to_valid_tsv(f_in=fi, f_out=fo, sep_column=sc, sep_protein=sp)
+
+
+def _is_valid_tsv(fi, sc, call):
+    from mokapot.parsers.pin_to_tsv import is_valid_tsv
+    if call == "default":
+        assert sc == TAB
+        return is_valid_tsv(fi)
+    if call == "pos":
+        return is_valid_tsv(fi, sc)
+    return is_valid_tsv(f_in=fi, sep_column=sc)
+
+
+def _convert(text, via, sc=TAB, sp=":", call="kw"):
     if via == "file":
         with tempfile.TemporaryDirectory() as d:
             pi, po = os.path.join(d, "in.pin"), os.path.join(d, "out.tsv")
             with open(pi, "w", newline="") as f:
                 f.write(text)
             with open(pi, "r") as fi, open(po, "w", newline="") as fo:
-                pin_to_valid_tsv(fi, fo)
+                _pin_to_valid_tsv(fi, fo, sc, sp, call)
             with open(po, "r", newline="") as f:
                 return f.read()
     out = io.StringIO()
-    pin_to_valid_tsv(io.StringIO(text), out)
+    _pin_to_valid_tsv(io.StringIO(text), out, sc, sp, call)
     return out.getvalue()
 
 
-def _valid(text, via):
-    from mokapot.parsers.pin_to_tsv import is_valid_tsv
+def _valid(text, via, sc=TAB, call="kw"):
     if via == "file":
         with tempfile.TemporaryDirectory() as d:
             pi = os.path.join(d, "in.pin")
             with open(pi, "w", newline="") as f:
                 f.write(text)
             with open(pi, "r") as fi:
-                return bool(is_valid_tsv(fi))
-    return bool(is_valid_tsv(io.StringIO(text)))
+                return bool(_is_valid_tsv(fi, sc, call))
+    return bool(_is_valid_tsv(io.StringIO(text), sc, call))
+
+
+def _convert_line(line, idx, ncol, sc, sp, call):
+    from mokapot.parsers.pin_to_tsv import convert_line_pin_to_tsv
+    if call == "default":
+        assert sc == TAB and sp == ":"
+        return convert_line_pin_to_tsv(line, idx, ncol)
+    if call == "pos":
+        return convert_line_pin_to_tsv(line, idx, ncol, sc, sp)
+    return convert_line_pin_to_tsv(line, idx_protein_col=idx, n_col=ncol, sep_column=sc, sep_protein=sp)
+
+
+def _parse_header(header, sc, call):
+    from mokapot.parsers.pin_to_tsv import parse_pin_header_columns
+    if call == "default":
+        assert sc == TAB
+        r = parse_pin_header_columns(header)
+    elif call == "pos":
+        r = parse_pin_header_columns(header, sc)
+    else:
+        r = parse_pin_header_columns(header, sep_column=sc)
+    return [int(r[0]), int(r[1])]
 
 
 def impl(c):
-    if c["fn"] == "convert_file":
-        return call_impl(_convert, c["text"], c.get("via", "stringio"))
-    return call_impl(_valid, c["text"], c.get("via", "stringio"))
+    sc, sp, call = _seps(c)
+    fn = c["fn"]
+    if fn == "convert_file":
+        return call_impl(_convert, c["text"], c.get("via", "stringio"), sc, sp, call)
+    if fn == "is_valid":
+        return call_impl(_valid, c["text"], c.get("via", "stringio"), sc, call)
+    if fn == "convert_line":
+        return call_impl(_convert_line, c["line"], c["idx"], c["ncol"], sc, sp, call)
+    return call_impl(_parse_header, c["header"], sc, call)
 
 
 def same(c, m, i):
-    return tuple(m) == tuple(i)
+    return lib.jsonable(m) == lib.jsonable(i)
 
 
 def nontrivial(c):
+    sc, sp, _ = _seps(c)
+    if (sc, sp) != (TAB, ":"):
+        return True
     st = c.get("struct")
     if st is None:
-        return "malformed" in c.get("tags", [])
+        tags = c.get("tags", [])
+        return "malformed" in tags or "line-random" in tags or "header" in tags or \
+            (c.get("row") is not None and len(c["row"]["prots"]) >= 2)
     return any(len(r["prots"]) >= 2 for r in st["rows"]) or len(st["hdr_post"]) > 0
 
 
-def _spec_valid(text):
+def _spec_valid(text, sc=TAB):
     """the property's own definition of validity (independent of the code)"""
     lines = text.split("\n")
     if lines and lines[-1] == "":
         lines.pop()
-    else:
-        pass
     if len(lines) < 2:
         return None
     if lines[1].startswith(DD):
         return False
-    n = lines[0].count("\t")
-    return all(l.count("\t") == n for l in lines[1:])
+    n = lines[0].count(sc)
+    return all(l.count(sc) == n for l in lines[1:])
 
 
 def oracle(c, i):
     """property predicate evaluated on the implementation's output"""
+    sc, sp, call = _seps(c)
     st = c.get("struct")
     if c["fn"] == "convert_file" and st is not None:
-        exp = expected_tsv(st)
+        exp = expected_tsv(st, sc, sp)
         if tuple(i) != ("ok", exp):
-            return f"conversion of a well-formed PIN is not the expected rectangular table: got {i!r}, expected {exp!r}"
-        v = call_impl(_valid, exp, "stringio")
+            return (f"conversion of a well-formed PIN (sep_column={sc!r}, sep_protein={sp!r}) is not the expected "
+                    f"rectangular table: got {i!r}, expected {exp!r}")
+        # out_ok of the theorems: the protein separator contains neither sep_column nor NL and the first
+        # converted line does not start with DefaultDirection
+        if sc in sp or "\n" in sp or exp.split("\n")[1].startswith(DD):
+            return None
+        v = call_impl(_valid, exp, "stringio", sc, call)
         if v != ("ok", True):
             return f"converted output is not recognised as valid: {v!r}"
-        again = call_impl(_convert, exp, "stringio")
+        again = call_impl(_convert, exp, "stringio", sc, sp, call)
         if again != ("ok", exp):
             return f"conversion is not idempotent: {again!r}"
         return None
-    if c["fn"] == "is_valid" and "\r" not in c["text"] and "\x0b" not in c["text"] and "\x1c" not in c["text"]:
-        sv = _spec_valid(c["text"])
+    if c["fn"] == "convert_line" and c.get("row") is not None:
+        r = c["row"]
+        exp = sc.join(r["pre"] + [sp.join(r["prots"])] + r["post"])
+        if tuple(i) != ("ok", exp):
+            return (f"line conversion (sep_column={sc!r}, sep_protein={sp!r}) does not keep the other fields and join "
+                    f"the proteins: got {i!r}, expected {exp!r}")
+        return None
+    if c["fn"] == "is_valid" and "\r" not in c["text"] and "\x0b" not in c["text"] and "\x1c" not in c["text"] \
+            and sc != "\n":
+        sv = _spec_valid(c["text"], sc)
         if sv is not None and i[0] == "ok" and bool(i[1]) != sv:
             return f"is_valid_tsv returned {i[1]} but the text is {'valid' if sv else 'invalid'} by definition"
     return None
 
 
 def shrink(c):
-    txt = c["text"]
+    sc, sp, call = _seps(c)
     st = c.get("struct")
     if st is not None:
-        # drop rows / proteins / columns
+        # drop rows / the DefaultDirection line
         for k in range(len(st["rows"])):
             if len(st["rows"]) > 1:
                 s2 = dict(st, rows=st["rows"][:k] + st["rows"][k + 1:])
-                yield dict(c, struct=s2, text=render(s2))
+                yield dict(c, struct=s2, text=render(s2, sc))
         if st["dd"] is not None:
             s2 = dict(st, dd=None)
-            yield dict(c, struct=s2, text=render(s2))
+            yield dict(c, struct=s2, text=render(s2, sc))
         return
-    for k in range(len(txt)):
-        yield dict(c, text=txt[:k] + txt[k + 1:])
+    if "text" in c:
+        txt = c["text"]
+        for k in range(len(txt)):
+            yield dict(c, text=txt[:k] + txt[k + 1:])
